@@ -65,6 +65,12 @@ pub struct Matrix {
     pub skip_code: Option<i32>,
     #[serde(default)]
     pub skip_inline: bool,
+    /// rows with `wait: {timeout, path}` under a 20 s document limit (three test cases, the second
+    /// one waits): 1 = the path exists before (wait 30 s), 2 = a detached first test case creates
+    /// it after 0.3 s (wait 30 s), 3 = it never appears (wait 2 s). The document passes and scrut
+    /// returns at once (1, 2) / after the 2 s (3)
+    #[serde(default)]
+    pub wait_path: u8,
 }
 
 #[derive(Clone, Debug, Serialize, Deserialize)]
@@ -137,6 +143,9 @@ impl Matrix {
         if self.skip_code.is_some() && self.format == Format::Cram {
             return false;
         }
+        if self.wait_path != 0 {
+            return self.wait_path <= 3 && self.format == Format::Markdown && self.per_test == PerTest::Absent && self.doc == DocLimit::Default && !self.slow && !self.wait;
+        }
         if self.wait {
             return self.format == Format::Markdown
                 && self.per_test == PerTest::Absent
@@ -159,6 +168,40 @@ impl Matrix {
         }
     }
     fn to_run(&self) -> RunSpec {
+        if self.wait_path != 0 {
+            let mut t0 = TestSpec::pass("m0");
+            let mut t1 = TestSpec::pass("m1");
+            t1.wait_path = Some("ready".into());
+            match self.wait_path {
+                1 => {
+                    t0.extra = "touch \"$TMPDIR/ready\"".into();
+                    t1.wait_ms = Some(30_000);
+                    t1.wait_path_appears = true;
+                }
+                2 => {
+                    t0.detached = true;
+                    t0.extra = "sleep 0.3; touch \"$TMPDIR/ready\"".into();
+                    t1.wait_ms = Some(30_000);
+                    t1.wait_path_appears = true;
+                }
+                _ => t1.wait_ms = Some(2000),
+            }
+            let mut doc = DocSpec::new("m.md", Format::Markdown, vec![t0, t1, TestSpec::pass("m2")]);
+            // the limit from the front-matter or from the command line
+            let cli = if self.n % 2 == 0 { Some(20) } else { None };
+            if cli.is_none() {
+                doc.total_timeout_ms = Some(20_000);
+            }
+            return RunSpec {
+                args: vec![doc.name.clone()],
+                docs: vec![doc],
+                aux: vec![],
+                cli_prepend: vec![],
+                cli_append: vec![],
+                cli_timeout_s: cli,
+                cram_compat: false,
+            };
+        }
         let ext = if self.format == Format::Markdown { "md" } else { "t" };
         let tests: Vec<TestSpec> = (0..self.n)
             .map(|j| {
@@ -269,7 +312,7 @@ const CALM_ROWS: [(PerTest, DocLimit); 5] = [
 ];
 
 fn n_matrix(tier: Tier) -> u64 {
-    tier.pick(24, 90)
+    tier.pick(27, 96)
 }
 
 fn gen_matrix(k: u64, rng: &mut Rng) -> Matrix {
@@ -281,6 +324,22 @@ fn gen_matrix(k: u64, rng: &mut Rng) -> Matrix {
         1 => n / 2,
         _ => n - 1,
     };
+    if (24..=26).contains(&(k % 32)) {
+        // rows with a wait for a path
+        return Matrix {
+            format: Format::Markdown,
+            per_test: PerTest::Absent,
+            doc: DocLimit::Default,
+            n,
+            pos: 0,
+            slow: false,
+            wait: false,
+            trap_term: 0,
+            skip_code: None,
+            skip_inline: false,
+            wait_path: (k % 32 - 23) as u8,
+        };
+    }
     if k % 12 == 11 {
         let n = n.max(2);
         return Matrix {
@@ -296,6 +355,7 @@ fn gen_matrix(k: u64, rng: &mut Rng) -> Matrix {
             trap_term: 0,
             skip_code: if (k / 12) % 2 == 1 { Some(-1) } else { None },
             skip_inline: false,
+            wait_path: 0,
         };
     }
     if k % 6 == 5 {
@@ -312,6 +372,7 @@ fn gen_matrix(k: u64, rng: &mut Rng) -> Matrix {
             trap_term: 0,
             skip_code: None,
             skip_inline: false,
+            wait_path: 0,
         }
     } else {
         let j = k - k / 6;
@@ -342,6 +403,7 @@ fn gen_matrix(k: u64, rng: &mut Rng) -> Matrix {
             trap_term,
             skip_code,
             skip_inline,
+            wait_path: 0,
         }
     }
 }
@@ -665,7 +727,16 @@ impl C14 {
         let rel = case.relation();
         let fmt = if case.format == Format::Markdown { "markdown" } else { "cram" };
         let mut buckets = j.buckets.clone();
-        buckets.push(format!("B:{}:{rel}:{fmt}", if case.slow { "slow" } else if case.wait { "wait" } else { "calm" }));
+        buckets.push(format!("B:{}:{rel}:{fmt}", if case.slow { "slow" } else if case.wait { "wait" } else if case.wait_path != 0 { "wait-path" } else { "calm" }));
+        let wp = match case.wait_path {
+            1 => "/wait-path=exists-before",
+            2 => "/wait-path=created-during-the-wait",
+            3 => "/wait-path=never-appears",
+            _ => "",
+        };
+        if case.wait_path != 0 {
+            buckets.push("B:wait-path".into());
+        }
         // a command that ignores or traps SIGTERM must be aborted like any other
         let term = match case.trap_term {
             1 => "/sigterm-ignored",
@@ -694,9 +765,18 @@ impl C14 {
                 // the slow command itself is not reported as timed out: how it escaped the limit
                 format!("C14/{}/{}{term}", f.clause, f.cause)
             } else {
-                format!("C14/{}/{}", f.clause, f.cause)
+                format!("C14/{}/{}{wp}", f.clause, f.cause)
             };
             verdict = Some((sig, f.detail.clone()));
+        }
+        if verdict.is_none() && case.wait_path != 0 {
+            let wall = obs.proc.wall;
+            if wall >= Duration::from_millis(SLOW_MS) {
+                verdict = Some((
+                    format!("C14/not-bounded/{fmt}{wp}"),
+                    format!("scrut returned after {wall:?} although the wait should have ended {}", if case.wait_path == 3 { "after its 2 s timeout" } else { "as soon as the path existed" }),
+                ));
+            }
         }
         if verdict.is_none() && case.slow && case.format == Format::Markdown {
             // the report names a limit (`timeout[300ms]`): it must not be the configured limit
@@ -793,7 +873,7 @@ impl Monitor for C14 {
         let nb = n_matrix(tier);
         let mut p = Plan::new(
             nb + tier.pick(200, 5000),
-            "(A) runs of 1-3 Markdown documents with fast commands (0 or 20-80 ms) under per-test limits {absent, 50 ms .. 1 h, equal to / just above the document limit} and document limits {default, 0, 200 ms .. 1 h} from front-matter and/or --timeout-seconds: every timeout_decision event judged logically; non-trivial = a decision with both limits defined; distinct = hash of (relation, per-test limit, document limit) per decision. (B) matrix per-test {absent, 300 ms, 30 s} x document limit {default, 0, 1 s front-matter, --timeout-seconds 1/0} x position {first, middle, last} x {sleep 8 (plain, after the shell was told to ignore / to trap SIGTERM, or after it closed / redirected its output streams), instantaneous} restricted to rows where the smallest limit is <= 1 s (slow) or every limit >= 20 s (instantaneous), Markdown plus the command-line rows for Cram, plus rows in which a `wait: 2s` uses up a 1 s document limit between two instantaneous test cases (that test case or the next must be reported failed, nothing after it passed, exit 50): every row non-trivial",
+            "(A) runs of 1-3 Markdown documents with fast commands (0 or 20-80 ms) under per-test limits {absent, 50 ms .. 1 h, equal to / just above the document limit} and document limits {default, 0, 200 ms .. 1 h} from front-matter and/or --timeout-seconds: every timeout_decision event judged logically; non-trivial = a decision with both limits defined; distinct = hash of (relation, per-test limit, document limit) per decision. (B) matrix per-test {absent, 300 ms, 30 s} x document limit {default, 0, 1 s front-matter, --timeout-seconds 1/0} x position {first, middle, last} x {sleep 8 (plain, after the shell was told to ignore / to trap SIGTERM, or after it closed / redirected its output streams), instantaneous} restricted to rows where the smallest limit is <= 1 s (slow) or every limit >= 20 s (instantaneous), Markdown plus the command-line rows for Cram, plus rows in which a `wait: 2s` uses up a 1 s document limit between two instantaneous test cases (that test case or the next must be reported failed, nothing after it passed, exit 50): plus rows with `wait: {timeout, path}` under a 20 s document limit (path exists before / is created 0.3 s into the wait by a detached test case / never appears with a 2 s wait): the document passes and scrut returns within 8 s: every row non-trivial",
         );
         p.chunk = 1;
         p.workers = tier.pick(28, 32);
@@ -807,6 +887,7 @@ impl Monitor for C14 {
             ("A:near-miss-tie".into(), tier.pick(5, 120)),
             ("kind:timeout".into(), tier.pick(8, 30)),
             ("B:wait:document-limit-only:markdown".into(), tier.pick(1, 3)),
+            ("B:wait-path".into(), tier.pick(2, 6)),
             ("B:slow-command/sigterm-ignored".into(), tier.pick(2, 6)),
             ("B:slow-command/streams-closed".into(), tier.pick(2, 6)),
             ("B:slow-command/streams-to-dev-null".into(), tier.pick(2, 6)),
